@@ -274,3 +274,46 @@ def crash_shapes(ctx, functions):
     n = shapes.check_return_arity(ctx, functions)
     n += shapes.check_none_deref(ctx, functions)
     return n
+
+
+def closest_combination_distance(ctx, rule='A5d'):
+    """Complete encoder, closest valid combination: the distance between the requested and a valid option-index
+    combination ignores (a) choices that are inactive in the candidate and (b) forced choices (they have no
+    design variable; their requested value is a placeholder)."""
+    fn = ctx.fn(f'{COMPLETE}._get_comb_idx')
+    inner = fn.nested.get('_find_correct_opt_idx')
+    if inner is None:
+        raise AnalysisError('_get_comb_idx._find_correct_opt_idx vanished')
+    ctx.touch(inner)
+    dist = [s for s in walk_fn(inner) if isinstance(s, ast.Assign) and norm(s.targets[0]) == 'dist']
+    if not dist:
+        raise AnalysisError('_find_correct_opt_idx: distance computation not found')
+    dnames = {x.id for x in ast.walk(dist[0].value) if isinstance(x, ast.Name)}
+    texts = []
+    for s in walk_fn(inner):
+        if isinstance(s, ast.Assign) and s.lineno <= dist[0].lineno:
+            tg = s.targets[0]
+            base = tg
+            while isinstance(base, ast.Subscript):
+                base = base.value
+            if isinstance(base, ast.Name) and base.id in dnames:
+                texts.append(norm(s))
+    txt = ' '.join(texts)
+    ok_a = 'X_INACTIVE_VALUE' in txt
+    ok_b = 'is_forced' in txt
+    ctx.ob(rule, fkey(inner, rule, 'distance-ignores-inactive'), ok_a, f'{inner.module.relpath}:{dist[0].lineno}',
+           'the distance to a candidate combination ignores the choices that are inactive (-1) in that candidate',
+           txt[:160])
+    ctx.ob(rule, fkey(inner, rule, 'distance-ignores-forced'), ok_b, f'{inner.module.relpath}:{dist[0].lineno}',
+           'the distance ignores forced choices: they are not design variables, their requested value is a '
+           'placeholder and must not pull the correction towards low option indices', txt[:160])
+    # exact matches are compared on the non-forced choices only
+    t = ' '.join(norm(s) for s in inner.body)
+    ok = 'np.all(opt_idx_comb[non_forced_mask] == mod_opt_idx[non_forced_mask])' in t
+    ctx.ob(rule, fkey(inner, rule, 'exact-match-on-non-forced'), ok, inner.where,
+           'a requested vector that agrees with a valid combination on every non-forced choice selects that '
+           'combination (a valid vector is returned unchanged)', '')
+    ok = 'i_min_dist = np.argmin(dist)' in t
+    ctx.ob(rule, fkey(inner, rule, 'closest-is-argmin'), ok, inner.where,
+           'otherwise the combination with the smallest distance is selected', '')
+    return 4
